@@ -89,7 +89,14 @@ example : allGuarded { cap := fun _ => 1, budget := 2 } [[.ctxSelect, .send .err
 
 /-- structural facts of the current source the abstraction relies on: `Run`'s protocol, terminal plain error sends,
 every unbounded loop with a blocking operation has a ctx case, the discipline on `errCh`, the worker sets, every
-worker has a ctx select -/
+worker has a ctx select.
+
+WHAT IS PROVED HERE AND WHAT IS NOT: `runProtocol`, `errSendsTerminal`, `loopsHeaded` (like `mutexRegionsNonBlocking`
+and `timerLoopsRearmOnEveryPath` below) are VERDICTS OF THE GO EXTRACTOR: the analysis (which select, which path,
+which critical section) is done in `harness/streams/c13/facts.go`, which is trusted; Lean adds nothing to them.  What
+Lean does decide is the final conjunction over the DATA the extractor emits next to each verdict
+(`runSelectOverErrChAndParent/runWaitsAfterSelect/runErrChReads`, `plainErrSends`, `loopChecks`, `mutexRegionData`,
+`timerBackEdges`): `C13_verdicts_from_data`. -/
 theorem C13_static_facts :
     Gen.C13.runProtocol = true ∧ Gen.C13.errSendsTerminal = true ∧ Gen.C13.loopsHeaded = true ∧
     errDisciplined aggProgs = true ∧ errDisciplined fullProgs = true ∧
@@ -97,9 +104,68 @@ theorem C13_static_facts :
     aggProgs.all (fun p => p.contains .ctxSelect) = true ∧ fullProgs.all (fun p => p.contains .ctxSelect) = true := by
   decide
 
+/-- the extractor's verdicts recomputed from the data it emits: `Run` has its select, a `wg.Wait()` after it and exactly one
+receive from `errCh`; every plain error send is followed by `return`; every loop that can park leaves at a ctx case;
+every critical section of every mutex of the table holds 0 operations that can park the holder, and every mutex of a
+`lock` row has at least one critical section in the data; on every back-edge of every timer loop the timer is re-armed
+(and there is such an edge for the three timers of the aggregation loops) -/
+theorem C13_verdicts_from_data :
+    Gen.C13.runSelectOverErrChAndParent = true ∧ Gen.C13.runWaitsAfterSelect = true ∧ Gen.C13.runErrChReads = 1 ∧
+    Gen.C13.plainErrSends.all (·.2) = true ∧
+    Gen.C13.loopChecks.all (fun l => !l.2.1 || l.2.2) = true ∧ 9 ≤ (Gen.C13.loopChecks.filter (·.2.1)).length ∧
+    Gen.C13.mutexRegionData.all (fun r => r.2.2 == 0) = true ∧
+    (Gen.C13.points.all fun p => p.2.1 != 5 || Gen.C13.mutexRegionData.any (fun r => r.1 == p.2.2.1)) = true ∧
+    Gen.C13.timerBackEdges.all (·.2.2) = true ∧ 3 ≤ Gen.C13.timerBackEdges.length := by decide
+
+/-- **The skeleton of the table is pinned** (an extractor regression that DROPS points must not pass): every worker has a
+ctx select and the operations each loop is known for - AggregationLoop: timer receives, the `txNotifyCh` receive, the
+non-blocking error report, the state lock, the broadcast join; Reaper: ticker and the `txNotifyCh` poll; the submission
+loops: their tickers (and the back-off timer of `submitToDA`); DAIncluderLoop: `daIncluderCh`, error report;
+RetrieveLoop: `retrieveCh`, the two event sends; the store loops: their store channel and event send; SyncLoop:
+`headerInCh`, `dataInCh`, tickers, error report, state lock - and at least the number of points it has today. -/
+theorem C13_table_skeleton :
+    let P := fun l => progOf Gen.C13.points l
+    (([0, 1, 2, 3, 4, 5, 6, 7, 8].all fun l => (P l).contains .ctxSelect) = true) ∧
+    ([BP.recv .timer true, .recv .txNotifyCh true, .send .errCh true, .lock 0 true, .join true].all (P 0).contains = true) ∧
+    ([BP.recv .timer true, .send .txNotifyCh true].all (P 1).contains = true) ∧
+    ([BP.recv .timer true].all (P 2).contains = true) ∧ ([BP.recv .timer true].all (P 3).contains = true) ∧
+    ([BP.recv .daIncluderCh true, .send .errCh true].all (P 4).contains = true) ∧
+    ([BP.recv .retrieveCh true, .send .headerInCh true, .send .dataInCh true, .recv .timer true].all (P 5).contains = true) ∧
+    ([BP.recv .headerStoreCh true, .send .headerInCh true].all (P 6).contains = true) ∧
+    ([BP.recv .dataStoreCh true, .send .dataInCh true].all (P 7).contains = true) ∧
+    ([BP.recv .headerInCh true, .recv .dataInCh true, .recv .timer true, .send .errCh true, .lock 0 true].all (P 8).contains = true) ∧
+    ([(0, 18), (1, 3), (2, 5), (3, 5), (4, 4), (5, 13), (6, 5), (7, 5), (8, 14)].all
+      fun (lc : Nat × Nat) => decide (lc.2 ≤ (P lc.1).length)) = true := by decide
+
+/-- no `time.Sleep` is left on any walk (a sleep is never a guarded point: `BP.guarded (.sleep _) = false`) -/
+theorem C13_no_sleep : (Gen.C13.points.all fun p => p.2.1 != 1) = true := by decide
+
+/-- `Run` itself: its own `go` statements (and those of the functions of package node it calls) are either joined by its
+WaitGroup (the workers) or `http.Server.ListenAndServe` goroutines, which the `Shutdown` calls of the post-join phase
+end (net/http: ListenAndServe returns once Shutdown is called) - as many as there are; and the post-join phase
+(after `wg.Wait()`, which is where the model's "`Run` returned" is) calls only the declared list: it is NOT in the
+table, it is an assumption (props/C13.json) that these calls return: the sync services' `Stop` and the three
+`Shutdown` under a 9 s context, `p2p.Client.Close` and `Store.Close` without any.  The runtime monitors measure the real
+`Run` to its return and look for goroutines that survive it. -/
+def declaredPostJoin : List String :=
+  ["pkg/sync.SyncService.Stop", "pkg/p2p.Client.Close", "(*net/http.Server).Shutdown", "pkg/store.Store.Close",
+   "block.Manager.SaveCache", "context.WithTimeout", "context.Background", "(context.Context).Err",
+   "interface{Unwrap() []error}.Unwrap"]
+
+theorem C13_run_envelope :
+    Gen.C13.runGoStmts.all (·.2.2.2) = true ∧
+    (Gen.C13.runGoStmts.filter fun g => g.2.2.1 == "unjoined").length = 3 ∧
+    (Gen.C13.runGoStmts.filter fun g => g.2.2.1 == "joined").length = 1 ∧
+    Gen.C13.runPostJoinCalls.all (fun c => declaredPostJoin.contains c) = true ∧
+    Gen.C13.runPostJoinCalls.contains "(*net/http.Server).Shutdown" = true := by decide
+
 /-- **Completeness of the table (1):** on its walks (the nine loop functions and the critical sections of the mutexes they
-lock) the extractor met no call into the repository's own packages, and no call through a func value (func-typed
-field, parameter, local, method value), that it could not resolve and follow. -/
+lock) the extractor met no call INTO THE REPOSITORY'S OWN PACKAGES, and no call through a func value (func-typed
+field, parameter, local, method value) of unknown origin, that it could not resolve and follow.  NOT covered: method
+calls on the declared boundary interfaces (`C13_boundary_declared`), calls into packages outside the repository
+(`Gen.C13.externalPkgs`, documentation) and func values OBTAINED from outside the repository (e.g. the `cancel` of
+`context.WithTimeout`; listed there as "<func value obtained from outside the repository>"): those are taken to
+return, apart from the classified primitives of time / sync / errgroup. -/
 theorem C13_extractor_complete : Gen.C13.callsNotFollowed = [] := by decide
 
 /-- the interfaces whose method calls are NOT followed: the execution, sequencing and DA layers, the store, the P2P
@@ -116,6 +182,7 @@ theorem C13_boundary_declared :
 /-- **Completeness of the table (3):** no critical section of a mutex locked by a loop (or locked inside such a critical
 section), anywhere in the repository's loaded packages, contains an operation that can park its holder; hence every
 `lock` point of the table is `free` -/
+-- (extractor verdicts; the same conclusion from the emitted data: `C13_verdicts_from_data`)
 theorem C13_mutex_regions :
     Gen.C13.mutexRegionsNonBlocking = true ∧ Gen.C13.mutexes.all (fun m => m.2.2) = true ∧
     (Gen.C13.points.all fun p => p.2.1 != 5 || p.2.2.2) = true := by decide
@@ -128,6 +195,7 @@ theorem C13_no_unjoined_goroutines :
     Gen.C13.goStmtsInWorkers = [] ∧ (Gen.C13.points.all fun p => p.2.1 != 7) = true := by decide
 
 /-- every `for { select { … case <-t.C: … } }` loop with a `*time.Timer` re-arms it on every path back to the loop head -/
+-- (extractor verdict; from the emitted back-edges: `C13_verdicts_from_data`)
 theorem C13_timer_loops : Gen.C13.timerLoopsRearmOnEveryPath = true := by decide
 
 /-- **FULL statement for the current tree:** every blocking point of every worker of both modes is guarded and `errCh`
